@@ -33,24 +33,56 @@ def make_parser(config, **kw):
     raise AssertionError(config)
 
 
-def load(config, text, timeout=2.0, parser=None):
-    """Load text under config; outcome = module | raise | hang."""
-    import pvl
-    signal.signal(signal.SIGALRM, _alarm)
-    signal.setitimer(signal.ITIMER_REAL, timeout)
-    try:
-        with warnings.catch_warnings():
-            warnings.simplefilter("ignore")
-            if config == "OMNI" and parser is None:
-                m = pvl.loads(text)
-            else:
-                m = pvl.loads(text, parser=parser or make_parser(config))
+class watchdog:
+    """Raises Hang in the guarded block after `seconds` of CPU time of this process (ITIMER_VIRTUAL: a machine
+    under load cannot make a terminating call look like a hang), with a wall-clock backstop of 60 x that."""
+
+    def __init__(self, seconds):
+        self.s = seconds
+
+    def __enter__(self):
+        signal.signal(signal.SIGVTALRM, _alarm)
+        signal.signal(signal.SIGALRM, _alarm)
+        signal.setitimer(signal.ITIMER_VIRTUAL, self.s)
+        signal.setitimer(signal.ITIMER_REAL, self.s * 60)
+        return self
+
+    def __exit__(self, *a):
+        signal.setitimer(signal.ITIMER_VIRTUAL, 0)
         signal.setitimer(signal.ITIMER_REAL, 0)
+        return False
+
+
+def load(config, text, timeout=2.0, parser=None, parser_factory=None):
+    """Load text under config; outcome = module | raise | hang.  A hang is reported only if a second attempt with
+    five times the CPU budget does not finish either."""
+    obs = _load(config, text, timeout, parser)
+    if obs["kind"] == "hang" and _CONFIRMED[0] < 10:      # after 10 confirmed hangs in this process the CPU timer is trusted
+        obs = _load(config, text, timeout * 5, parser_factory() if parser_factory else parser)
+        if obs["kind"] == "hang":
+            _CONFIRMED[0] += 1
+    return obs
+
+
+_CONFIRMED = [0]
+
+
+def _load(config, text, timeout, parser):
+    import pvl
+    try:
+        with watchdog(timeout):
+            with warnings.catch_warnings():
+                warnings.simplefilter("ignore")
+                if config == "OMNI" and parser is None:
+                    m = pvl.loads(text)
+                else:
+                    m = pvl.loads(text, parser=parser or make_parser(config))
         errs = getattr(m, "errors", None)
         return {"kind": "module", "tree": project(m), "errors": list(errs) if errs is not None else None}
     except Hang:
         return {"kind": "hang"}
     except BaseException as e:
+        signal.setitimer(signal.ITIMER_VIRTUAL, 0)
         signal.setitimer(signal.ITIMER_REAL, 0)
         if isinstance(e, (KeyboardInterrupt, SystemExit)):
             raise
@@ -58,8 +90,6 @@ def load(config, text, timeout=2.0, parser=None):
                 "documented": type(e).__name__ in ("LexerError", "ParseError"),
                 "pos": getattr(e, "pos", None), "lineno": getattr(e, "lineno", None),
                 "colno": getattr(e, "colno", None), "msg": str(e)[:200]}
-    finally:
-        signal.setitimer(signal.ITIMER_REAL, 0)
 
 
 def canon(node):
